@@ -381,6 +381,16 @@ func (p *cparser) primary() CExpr {
 	case "str":
 		return &CStr{t.val}
 	case "ident":
+		if t.val == "local" && p.isOp("(") {
+			// local(name): a program variable whose name is a word of the contract language (exists, result, forall...)
+			p.next()
+			v := p.next()
+			if v.kind != "ident" {
+				p.fail("local() needs a variable name")
+			}
+			p.expect(")")
+			return &CIdent{"\x00" + v.val}
+		}
 		if t.val == "forall" || t.val == "exists" {
 			v := p.next()
 			if v.kind != "ident" {
